@@ -4,6 +4,7 @@ import (
 	"fmt"
 	"go/ast"
 	"go/constant"
+	"go/printer"
 	"go/token"
 	"go/types"
 	"sort"
@@ -278,3 +279,10 @@ func Verbs(format string) (verbs []byte, percentCount int) {
 
 // Sprintf-like shorthand used by rules.
 func F(format string, a ...any) string { return fmt.Sprintf(format, a...) }
+
+// ExprStr0 renders any AST node (statement, block) on one line.
+func ExprStr0(n ast.Node) string {
+	var b strings.Builder
+	printer.Fprint(&b, token.NewFileSet(), n)
+	return strings.Join(strings.Fields(b.String()), " ")
+}
